@@ -32,7 +32,7 @@ def run(ctx):
     ctx.rule(RULE)
     ctx.trust("ExportAppState / InitChain run in separate OS processes (pocket-core keeps consensus state in package globals and ends the process on genesis errors)",
               "components outside the property's list (signing infos, previous-state powers, indexes) are compared with the model only")
-    ctx.stream("roundtrip", "c43", "Driver/C43.lean", n=(48 if ctx.thorough else 8), timeout=3000)
+    ctx.stream("roundtrip", "c43", "Driver/C43.lean", n=(48 if ctx.thorough else 6), timeout=3000)
     if ctx.thorough:
         ctx.stream("roundtrip-s2", "c43", "Driver/C43.lean", n=32, seed=ctx.seed * 1000 + 43, timeout=3000)
 
